@@ -8,6 +8,7 @@ import (
 	"flag"
 	"fmt"
 	"io"
+	"os"
 	"math"
 	"net"
 	"sync"
@@ -95,6 +96,13 @@ func Quiet() {
 // source-text table. Safe to call several times.
 func Init() {
 	once.Do(func() {
+		defer func() {
+			// a failure here is the harness's (e.g. the registry source no longer parses), never a verdict about go-ipfix
+			if r := recover(); r != nil {
+				fmt.Println("HARNESS-INIT-FAILED:", r)
+				os.Exit(4)
+			}
+		}()
 		for k, v := range typeMap {
 			revTypeMap[v] = k
 		}
